@@ -116,6 +116,8 @@ def fp_case_simple(rng, t0):
             while rng.random() < 0.45:
                 ops.append(fp_file_op(rng, n))
         ops = [o for o in ops if o]
+        if rng.random() < 0.3:                       # busy period: the completion is picked up late
+            ops.append("A%d" % rng.choice([5, 30, 100]))
         ops += ["K", "R", "A%d" % rng.choice([1, 3, 10, 25, 30]), "R"]
         if rng.random() < 0.15:
             ops.append("O")
@@ -127,14 +129,71 @@ def fp_case_simple(rng, t0):
     return "%d %d ; %s ; %s" % (t0, n, " ".join(ops), " | ".join(behs))
 
 
+def fp_case_timers(rng, t0):
+    """a timer of the script is due in the same uv__run_timers pass as the handle's interval timer (same
+    loop time, started before / after it so that it sorts before / after; also one tick earlier / later)
+    and its callback stops / closes / restarts the handle"""
+    npaths = rng.randint(2, 3)
+    nh = rng.randint(1, 2)
+    ops = ["Fw%d,%d" % (p, rng.randint(1, 3)) for p in range(npaths)] + ["I"] * nh
+    ivs = [rng.choice([3, 7, 10, 10, 25]) for _ in range(nh)]
+    paths = [rng.randrange(npaths) for _ in range(nh)]
+    ops += ["S%d,%d,%d,%d,0" % (h, rng.randint(1, 3), paths[h], ivs[h]) for h in range(nh)]
+    uid = [0]
+
+    def user(delay):
+        uid[0] += 1
+        return "U%d,%d" % (uid[0], max(0, delay))
+    for rnd in range(rng.randint(1, 4)):
+        h = rng.randrange(nh)
+        delta = rng.choice([0, 0, 0, -1, 1])
+        before = rng.random() < 0.5
+        if rng.random() < 0.3:
+            ops.append(fp_file_op(rng, npaths))
+        if before:
+            ops.append(user(ivs[h] + delta))       # started first: lower start_id, sorts before at equal due time
+        ops += ["K", "R"]                           # the poll completes: the interval timer is armed for now + iv
+        if not before:
+            ops.append(user(ivs[h] + delta))
+        if rng.random() < 0.3:
+            ops.append(user(ivs[h] + rng.choice([0, 1])))
+        ops += ["A%d" % ivs[h], "R"]
+        if delta == 1 or rng.random() < 0.3:
+            ops += ["A1", "R"]
+        if rng.random() < 0.5:
+            ops.append("O")
+    ops += ["K", "R", "A%d" % rng.choice([1, 10, 30]), "R", "K", "R"]
+    if rng.random() < 0.9:
+        ops += ["C%d" % h for h in range(nh)]
+    ops.append("Z")
+
+    def action():
+        h = rng.randrange(nh)
+        r = rng.random()
+        if r < 0.25:
+            return "T%d" % h
+        if r < 0.45:
+            return "C%d" % h
+        if r < 0.70:
+            return "T%d S%d,%d,%d,%d,0" % (h, h, rng.randint(1, 3), paths[h], ivs[h])              # same path
+        if r < 0.95:
+            return "T%d S%d,%d,%d,%d,0" % (h, h, rng.randint(1, 3), rng.randrange(npaths), rng.choice([3, 10]))
+        return ""
+    behs = [action() for _ in range(rng.randint(2, 8))]
+    return "%d %d ; %s ; %s" % (t0, npaths, " ".join(ops), " | ".join(behs))
+
+
 def fp_case(rng):
     npaths = rng.randint(1, 3)
     nh = rng.randint(1, 3)
     t0 = rng.choice([0, 1000, 2 ** 40])
     restart_heavy = rng.random() < 0.5
+    nuser = [0]
     simple = rng.random() < 0.3
     if simple:
         return fp_case_simple(rng, t0)
+    if rng.random() < 0.3:
+        return fp_case_timers(rng, t0)
     ops = []
     for p in range(npaths):
         if rng.random() < 0.7:
@@ -157,6 +216,11 @@ def fp_case(rng):
                 while rng.random() < 0.6:
                     ops.append(fp_file_op(rng, npaths))
             elif phase == 1:
+                if rng.random() < 0.25:                 # the clock jumps while the stat is in flight (slow callback)
+                    ops.append("A%d" % rng.choice([1, 10, 25, 100]))
+                if rng.random() < 0.15:
+                    nuser[0] += 1
+                    ops.append("U%d,%d" % (nuser[0], rng.choice([0, 1, 3, 7, 10, 25])))
                 if rng.random() < 0.9:
                     ops.append("K")
             elif phase == 2:
@@ -270,6 +334,7 @@ def fp_monitor(case, toks, other_live=None):
     allowed = set() # paths that had an active registration since the release before last
     err = []
     path_regs = {}  # path -> number of registrations ever made on it
+    clock = [int(hd.split()[0])]
 
     def peek():
         return toks[pos[0]] if pos[0] < len(toks) else None
@@ -300,7 +365,8 @@ def fp_monitor(case, toks, other_live=None):
                     if f != 0:
                         err.append("uv_fs_poll_start returned 0 although an allocation failed")
                     H[h]["active"] = True
-                    H[h]["reg"] = {"cb": cb, "path": p, "last": None, "lastpoll": None, "got": 0}
+                    H[h]["reg"] = {"cb": cb, "path": p, "last": None, "lastpoll": None, "got": 0,
+                                   "iv": iv if iv else 1, "phase": "sub", "deadline": None, "tdone": None}
                     path_regs[p] = path_regs.get(p, 0) + 1
                     allowed.add(p)
                 elif f == 0:
@@ -336,9 +402,11 @@ def fp_monitor(case, toks, other_live=None):
 
     def callbacks():
         """poll and close callbacks (each followed by its scripted behaviour)"""
-        while peek() is not None and peek()[0] in "px" and not err:
+        while peek() is not None and peek()[0] in "pxu" and not err:
             t = take(peek()[0])
-            if t[0] == "x":
+            if t[0] == "u":
+                pass            # the script's own timer: only its scripted behaviour matters
+            elif t[0] == "x":
                 h = int(t[1:])
                 if h >= len(H) or not H[h]["closing"] or H[h]["closed"]:
                     err.append("close callback for h%d which is not closing" % h)
@@ -391,6 +459,7 @@ def fp_monitor(case, toks, other_live=None):
     pending = {}    # path -> answers of the stats the pool has run and whose poll_cb has not run yet
 
     def release():
+        seen = set()
         while peek() is not None and peek()[0] == "s":
             p = int(take("s")[1:])
             if p not in allowed:
@@ -398,6 +467,20 @@ def fp_monitor(case, toks, other_live=None):
                            "previous release of the pool" % p)
                 return
             pending.setdefault(p, []).append(oracle.get(p))
+            seen.add(p)
+        # polls must keep happening: once a poll has completed, the next stat is issued at most one
+        # interval later (decidable where the path has had exactly one registration)
+        for h, x in enumerate(H):
+            reg = x["reg"]
+            if reg is None or path_regs.get(reg["path"]) != 1:
+                continue
+            if reg["path"] in seen:
+                reg["phase"] = "exec"
+            elif reg["phase"] == "due":
+                err.append("h%d is active, its poll completed at t=%d, interval %d, the loop ran its timers at "
+                           "t=%d, but no further stat of its path was issued (polling has stopped)"
+                           % (h, reg["tdone"], reg["iv"], reg["tdue"]))
+                return
 
     def deliver():
         """one iteration: where a path has had exactly one registration, the stats run on it are
@@ -434,6 +517,14 @@ def fp_monitor(case, toks, other_live=None):
                 err.append("h%d: %d callbacks for one poll" % (h, reg["got"]))
             reg["lastpoll"] = res
         pending.clear()
+        for h, x in enumerate(H):
+            reg = x["reg"]
+            if reg is None:
+                continue
+            if reg["phase"] == "exec":
+                reg["phase"], reg["tdone"], reg["deadline"] = "armed", clock[0], clock[0] + reg["iv"]
+            elif reg["phase"] == "armed" and clock[0] >= reg["deadline"]:
+                reg["phase"], reg["tdue"] = "due", clock[0]
 
     gi = 0
     for t in top:
@@ -449,6 +540,8 @@ def fp_monitor(case, toks, other_live=None):
         elif t == "R":
             take("g")
             deliver()
+        elif t[0] == "A":
+            clock[0] += int(t[1:])
         elif t == "Z":
             oracle = ORACLES[0][gi] if gi < len(ORACLES[0]) else {}
             gi += 1
@@ -1026,12 +1119,41 @@ def fspoll_part(chk, exe, model, thorough, work):
         chk.sample({"fs_poll_case": minputs[-1][:600], "impl": impl[-1][:600]})
 
 
+KEY_ASSERT = "fs_poll_timer_cb_assert_after_restart_in_same_timer_pass"
+
+
+def assert_probe(chk, exe, work):
+    """asserts-on build: uv_fs_poll_stop + uv_fs_poll_start from another timer's callback while the handle's
+    interval timer is already in the ready queue of the running uv__run_timers pass -> timer_cb's
+    assert(ctx->parent_handle->poll_ctx == ctx) fails (release builds issue one stray stat of the old path)."""
+    case = "1000 2 ; Fw0,1 Fw1,1 I S0,1,0,10,0 U1,10 K R A10 R K R A10 R K R C0 Z ; T0 S0,2,1,10,0"
+    out, rc, err = run_each(exe, [case], work, "a")[0]
+    if rc != 0 and "Assertion" in err and "timer_cb" in err:
+        f = chk.match_known(KEY_ASSERT)
+        if f is not None:
+            f.setdefault("example", {"case": case, "stderr": err[-400:]})
+            chk.known_hit(f)
+        else:
+            chk.violation("fs-poll.c: assertion in timer_cb fails (debug build aborts) when the handle is stopped and "
+                          "restarted from another timer's callback in the uv__run_timers pass in which its interval "
+                          "timer is already due -- unlisted finding " + KEY_ASSERT,
+                          {"kind": "assert", "obligation": "fs-poll.c timer_cb asserts", "case": case,
+                           "stderr": err[-1500:]}, found_input=True)
+    else:
+        chk.cov["assert_probe"] = "no assertion failure (rc=%d)" % rc
+
+
 def main():
     chk = vf.Check("C17")
     thorough = chk.tier == "thorough"
     chk.prove()
     try:
-        lib = vf.build_libuv(chk.scratch, "asan")   # asserts on (the timer_cb assert holds since 834ed95)
+        # fs_poll correspondence runs without asserts (what ships): the assert in timer_cb is reachable
+        # (KEY_ASSERT below) and would hide what a release build does; the asserts-on build is probed apart
+        lib = vf.build_libuv(chk.scratch, "asan", extra=("-DNDEBUG",))
+        libdbg = vf.build_libuv(chk.scratch, "debug")
+        hdbg = vf.cc_harness(chk.scratch, "c17_fspoll_dbg", ["c17_fspoll.c"], lib=libdbg, flavour="debug",
+                             wraps=["clock_gettime", "epoll_pwait", "syscall"])
         hpoll = vf.cc_harness(chk.scratch, "c17_fspoll", ["c17_fspoll.c"], lib=lib, flavour="asan",
                               wraps=["clock_gettime", "epoll_pwait", "syscall"])
         hev = vf.cc_harness(chk.scratch, "c17_fsevent", ["c17_fsevent.c"], lib=lib, flavour="asan",
@@ -1042,6 +1164,8 @@ def main():
         chk.finish(rule="build failed")
     work = os.path.join(chk.scratch.dir, "work")
     fspoll_part(chk, hpoll, model, thorough, work)
+    if not chk.replay:
+        assert_probe(chk, hdbg, work)
     fsevent_part(chk, hev, model, thorough, work)
     chk.finish(
         level="proof",
